@@ -294,6 +294,12 @@ def run(ctx):
         ("enegpowl", "(-3.0) ** 2", lambda v: 9.0),
         ("enegpowu", "(-da) ** 2", lambda v: v["da"] ** 2),
         ("enegpowi", "(-2) ** 3 + 0.0", lambda v: -8.0),
+        # a sign in front of something that already carries one
+        ("enegneglf", "-(-2.0)", lambda v: 2.0),
+        ("enegnegli", "-(-2) + 0.0", lambda v: 2.0),
+        ("enegnegu", "-(-da)", lambda v: v["da"]),
+        ("enegneg3", "-(-(-2.5)) + da", lambda v: -2.5 + v["da"]),
+        ("eminusneg", "da - -2.0", lambda v: v["da"] + 2.0),
         # literal-only sub-expressions in a floating-point context are not integer arithmetic
         ("elitdiv", "1 / 3 as float64", lambda v: 1.0 / 3.0),
         ("elitdivm", "da * (2 / 3 as float64)", lambda v: v["da"] * (2.0 / 3.0)),
